@@ -82,7 +82,7 @@ func outcomeReply(d *Dict, o Outcome) replyJ {
 }
 
 var namePool = []string{"a", "a/b", "prod/db\npass", "_internal/x", "", "x*y", "é世\U0001F511", "a.b", "b"}
-var patPool = []string{"*", "a", "a*", "*/b", "prod/*", "_internal/*", "*\n*", "x*y", "x\\*y", "*b", "a?b", "a.b", "é*", "", "**", "*a*", "b"}
+var patPool = []string{"*", "a", "a*", "*/b", "prod/*", "_internal/*", "*\n*", "x*y", "x\\*y", "*b", "a?b", "a.b", "é*", "", "**", "*a*", "b", "a*a", "a/*/b", "b*b", "a*/b"}
 var valToks = []string{"E", "v1", "v2", "v3", "v4"}
 var actionPool = []string{"get", "info", "put", "activate", "delete"}
 
@@ -163,6 +163,10 @@ func genRules(r *rand.Rand) []RuleJ {
 	return out
 }
 
+// saveFaultsToo: also inject failing saves when noFaults is set (marker-scanning runs: a failed save must
+// neither leak nor touch the key-encryption key)
+var saveFaultsToo = false
+
 // genHistory runs one random history on sys and appends its events to w.
 func genHistory(sys *Sys, r *rand.Rand, w *vh.NDJSONWriter, res *vh.Result, nev int, noFaults bool, via string, maxver *int, sample bool) int {
 	return genHistoryNames(sys, r, w, res, nev, noFaults, via, maxver, sample, namePool)
@@ -222,6 +226,9 @@ func genHistoryNames(sys *Sys, r *rand.Rand, w *vh.NDJSONWriter, res *vh.Result,
 			}
 			if httpMode && (c.Op == "getver" || c.Op == "getcond") && c.Ver == 0 {
 				c.Ver = 1
+			}
+			if saveFaultsToo && r.Intn(9) == 0 && (c.Op == "put" || c.Op == "activate" || c.Op == "delver" || c.Op == "delete") {
+				c.Fault = "save"
 			}
 			if !noFaults && r.Intn(40) == 0 {
 				c.Fault = []string{"auditWrite", "auditSync", "save"}[r.Intn(3)]
